@@ -84,8 +84,10 @@ PROPS["C04"] = {
              "created is the known finding c04-links-across-unpack-calls (decided by the call in which the escaping link was created or last "
              "changed); an escaping link of the current call is always reported."),
     "assumptions": ["dst has no symlinks placed by the caller (links left by an earlier Unpack into the same destination are in scope: sequence sub-check)", "absolute targets that point into dst are not required to be rejected (existing tested behaviour)"],
-    "quick": [rapid("links", "^TestPropLinks$", 2000, shards=3), rapid("reject", "^TestPropReject$", 2500, shards=1), rapid("through", "^TestPropThrough$", 400, shards=1), rapid("reuse", "^TestPropReuse$", 300, shards=1), rapid("via", "^TestPropVia$", 500, shards=1), rapid("sequence", "^TestPropSequence$", 500, shards=2)],
-    "thorough": [rapid("links", "^TestPropLinks$", 30000, shards=11), rapid("reject", "^TestPropReject$", 30000, shards=2), rapid("through", "^TestPropThrough$", 5000, shards=1), rapid("reuse", "^TestPropReuse$", 3000, shards=1), rapid("via", "^TestPropVia$", 5000, shards=1), rapid("sequence", "^TestPropSequence$", 6000, shards=4)],
+    "quick": [rapid("links", "^TestPropLinks$", 2000, shards=3), rapid("reject", "^TestPropReject$", 2500, shards=1), rapid("through", "^TestPropThrough$", 400, shards=1), rapid("reuse", "^TestPropReuse$", 300, shards=1), rapid("via", "^TestPropVia$", 500, shards=1), rapid("sequence", "^TestPropSequence$", 500, shards=2),
+              rapid("links-unpriv", "^TestPropLinks$", 1000, shards=2, uid=65534)],
+    "thorough": [rapid("links", "^TestPropLinks$", 30000, shards=11), rapid("reject", "^TestPropReject$", 30000, shards=2), rapid("through", "^TestPropThrough$", 5000, shards=1), rapid("reuse", "^TestPropReuse$", 3000, shards=1), rapid("via", "^TestPropVia$", 5000, shards=1), rapid("sequence", "^TestPropSequence$", 6000, shards=4),
+                 rapid("links-unpriv", "^TestPropLinks$", 12000, shards=4, uid=65534)],
 }
 
 PROPS["C02"] = {
